@@ -462,7 +462,7 @@ func genC10(g *Gen) {
 	run2 := func(gen string, lx []mlex) {
 		g.Run(gen, []Ev{{"op": "tmpl", "lex": lexAny(lx), "vars": mp, "wellformed": true, "caseseed": int(r.Int31())}})
 	}
-	for _, sz := range []int{63, 64, 65, 127, 128, 129, 130, 200, 255, 256, 257, 300, 1000, 1025, 4097} {
+	for _, sz := range g.WithRandomSizes([]int{63, 64, 65, 127, 128, 129, 130, 200, 255, 256, 257, 300, 1000, 1025, 4097}, g.Pick(5, 40), 3, g.Pick(300, 5000)) {
 		if sz > g.Pick(300, 5000) {
 			continue
 		}
